@@ -73,6 +73,12 @@ def c13_project(seed, nfiles, mode, reps):
     rcw, wout, _ = gen_once(ws, mode)
     cases.append(Case(dict(desc, what="whitespace"), {"whitespace_irrelevant": rcw == 0 and {k: v for k, v in wout.items() if k != ".typecache"}
                                                       == {k: v for k, v in base.items() if k != ".typecache"}}))
+    # … and the other way round: every function body on as few lines as possible (statements joined on one line)
+    import re as _re
+    one = {k: _re.sub(r";\n[ \t]+", "; ", v) for k, v in files.items()}
+    rco, oout, _ = gen_once(one, mode)
+    cases.append(Case(dict(desc, what="joined_lines"), {"whitespace_irrelevant": rco == 0 and {k: v for k, v in oout.items() if k != ".typecache"}
+                                                        == {k: v for k, v in base.items() if k != ".typecache"}}))
     for what, tr in (("reorder", projgen.reorder), ("move", projgen.move_items), ("split", projgen.split_helpers), ("move_odd_dirs", projgen.move_to_odd_dirs), ("rotate", projgen.rotate)):
         rct, tout, _ = gen_once(projgen.render(tr(p, seed + 2)), mode)
         ok = rct == 0 and all(sorted(proc.blocks(tout.get(n, ""))) == sorted(proc.blocks(base[n]))
@@ -132,8 +138,10 @@ def history_cases(histories, ctx, extra_oracle=None, classify=None):
     return out
 
 
-def RUN(forced=False, fault=None, kind=None, leftover=None):
+def RUN(forced=False, fault=None, kind=None, leftover=None, path=None):
     d = {"k": "run"}
+    if path:
+        d["path"] = path
     if forced:
         d["forced"] = True
     if fault is not None:
@@ -293,6 +301,11 @@ def c14_multi(seed, nfiles, mode, build, viz=False, prim=False):
         touched = []
         ok = rc1 == 0
         for k in range(3):
+            if k == 1:
+                # the sources are saved again with the bytes they had (an editor's save, `touch`): only their times move
+                for dp, _dn, fns in os.walk(os.path.join(d, "src-tauri")):
+                    for fn in fns:
+                        os.utime(os.path.join(dp, fn), None)
             rck, so, _ = run()
             s2 = proc.snapshot(os.path.join(d, "out"))
             ok = ok and rck == 0
@@ -336,6 +349,27 @@ def c14_flag_vs_config(flag, cfg_force, build):
         sb.close()
 
 
+def c14_many_small(seed, n, mode):
+    """many one-command projects, each generated twice on the CLI path: whatever the digest of a project happens to look
+    like (leading zeros, any length in hexadecimal), the second run is a cache hit that touches nothing"""
+    d = proc.sandbox("c14m")
+    try:
+        bad = []
+        for i in range(n):
+            root = os.path.join(d, "p%d" % i)
+            proc.write_files(os.path.join(root, "src-tauri"), {"lib.rs": "#[tauri::command]\npub fn command_%d_%d(level: u%d) -> String {\n    todo!()\n}\n" % (seed, i, (8, 16, 32, 64)[i % 4])})
+            args = ["generate", "-p", "src-tauri", "-o", "out", "-v", mode]
+            rc1, _, _ = proc.run_cli(root, args)
+            s1 = proc.snapshot(os.path.join(root, "out"))
+            rc2, so2, _ = proc.run_cli(root, args)
+            s2 = proc.snapshot(os.path.join(root, "out"))
+            if rc1 != 0 or rc2 != 0 or s1 != s2 or "up to date" not in so2:
+                bad.append(i)
+        return Case({"what": "many_small", "seed": seed, "n": n, "mode": mode}, {"rerun_touches_nothing": not bad}, detail={"projects_regenerated": bad[:10]})
+    finally:
+        proc.cleanup(d)
+
+
 def cases_c14(ctx):
     tier, seed = ctx["tier"], ctx["seed"]
     if ctx["replay"]:
@@ -344,8 +378,12 @@ def cases_c14(ctx):
             return [c14_multi(d["seed"], d["nfiles"], d["mode"], d["build"], d.get("viz", False), d.get("prim", False))]
         if d.get("what") == "flag_vs_config":
             return [c14_flag_vs_config(d["flag"], d["config_force"], d["build"])]
+        if d.get("what") == "many_small":
+            return [c14_many_small(d["seed"], d["n"], d["mode"])]
         return history_cases([(d["steps"], d["build"])], ctx, extra_oracle=force_oracle)
     out = []
+    out.append(c14_many_small(seed, 400 if tier == "thorough" else 64, "none"))
+    out.append(c14_many_small(seed + 1, 400 if tier == "thorough" else 64, "zod"))
     n = 24 if tier == "thorough" else 6
     jobs = [(seed * 100 + i, 1 + (i % 6), ("none", "zod")[i % 2], bool((i // 2) % 2), i % 3 == 1, False) for i in range(n)]
     # visualisation on/off x a project without any serde type, both paths
@@ -498,6 +536,13 @@ def cases_c17(ctx):
         hs.append(([RUN(fault=1, kind="rofs"), RUN()], build))
         hs.append(([RUN(), EDIT("param_type"), RUN(fault=1, kind="rofs"), RUN()], build))
         hs.append(([RUN(), EDIT("cmd_name"), RUN(fault=1, kind="rofs"), EDIT("cmd_name", -1), RUN()], build))
+    # histories that mix the two entry points over one output directory (a build-script run, a command-line run that
+    # fails, a build-script run): one directory, one record, whoever wrote it
+    for f in (1, 2, 3):
+        hs.append(([RUN(path="build"), RUN(path="cli", forced=True, fault=f), RUN(path="build")], True))
+        hs.append(([RUN(path="cli"), RUN(path="build", forced=True, fault=f), RUN(path="cli")], True))
+        hs.append(([RUN(path="build"), EDIT("param_type"), RUN(path="cli", fault=f), EDIT("param_type", -1), RUN(path="build")], True))
+        hs.append(([RUN(path="cli"), EDIT("cmd_name"), RUN(path="build", fault=f), RUN(path="cli"), RUN(path="build")], True))
     # the cache record itself cannot be removed or rewritten while the binding files stay writable
     for build in (False, True):
         hs.append(([RUN(), EDIT("param_type"), RUN(fault=0, kind="immcache"), EDIT("param_type", -1), RUN()], build))
@@ -548,7 +593,9 @@ FOREIGN = ["notes.ts", "types.tsx", "mytypes.ts", "README.md", ".write_test", ".
            "types.ts~", "types.ts.bak", "types.bak", ".types.ts.swp", "types.ts.new", "commands.new", ".typecache.tmp", "types.test.ts",
            "commands.mock.ts", "index.spec.ts", "index.mts", "types.cts", "dependency-graph.tmp", "tmp",
            # renderings of the graph the user made themselves
-           "dependency-graph.png", "dependency-graph.svg", "dependency-graph.json", "dependency-graph"]
+           "dependency-graph.png", "dependency-graph.svg", "dependency-graph.json", "dependency-graph",
+           # the generated names in another letter case; ignore / configuration files of other tools
+           "INDEX.ts", "Commands.ts", "EVENTS.TS", "types.TS", ".gitignore", ".npmignore", ".prettierignore", "tsconfig.json", "package.json", ".eslintrc.json"]
 RESERVED_DECOYS = ["models.ts", "bindings.d.ts", "generated_old.ts", "x_generated.md", "schemas.ts"]
 
 
